@@ -160,6 +160,40 @@ func (strFn) GetVariables() []data.Variable {
 	return []data.Variable{data.NewVariable("v", 0, nil)}
 }
 
+// attrFn is verif_attr($req, $key): the attribute `key` of the request's bag, read the way a Go
+// embedder reads it — through the `attribute` method of the request's class called with ONE
+// argument (from a script the one-argument form is refused before it reaches the method: the
+// parameter `value` has no default). Canonical text, "~" = not set.
+type attrFn struct{}
+
+func (attrFn) Call(ctx data.Context) (data.GetValue, data.Control) {
+	rv, _ := ctx.GetIndexValue(0)
+	kv, _ := ctx.GetIndexValue(1)
+	cv, ok := rv.(*data.ClassValue)
+	if !ok || cv.Class == nil || kv == nil {
+		return data.NewStringValue("?request"), nil
+	}
+	m, ok := cv.Class.GetMethod("attribute")
+	if !ok {
+		return data.NewStringValue("?method"), nil
+	}
+	vars := []data.Variable{data.NewVariable("key", 0, nil)}
+	c2 := ctx.CreateContext(vars)
+	c2.SetVariableValue(vars[0], kv)
+	ret, acl := m.Call(c2)
+	if acl != nil {
+		return data.NewStringValue("!" + firstLine(acl.AsString())), nil
+	}
+	return data.NewStringValue(canonVal(ret)), nil
+}
+func (attrFn) GetName() string { return "verif_attr" }
+func (attrFn) GetParams() []data.GetValue {
+	return []data.GetValue{data.NewParameter("req", 0), data.NewParameter("key", 1)}
+}
+func (attrFn) GetVariables() []data.Variable {
+	return []data.Variable{data.NewVariable("req", 0, nil), data.NewVariable("key", 1, nil)}
+}
+
 // hotFn is verif_hot($path, $closure): serves the path through std/net/http's exported HotHandler
 // (the hot-reload route: the handler runs on a TempVM layered over the server's VM) — nothing in the
 // repository constructs a HotHandler, an embedding program does, so the harness does it the same way
@@ -202,9 +236,34 @@ func (h *hotFn) lookup(url string) nethttp.Handler {
 
 // server is one in-process origami HTTP server with the helper functions registered.
 type server struct {
-	env  *vh.HTTPEnv
-	gate *gateFn
-	hot  *hotFn
+	env   *vh.HTTPEnv
+	gate  *gateFn
+	hot   *hotFn
+	front *frontFn
+}
+
+// frontFn is verif_front($server): a second Server object of the script whose routes forward to the
+// first one through the script-level `$server->serveHTTP($res, $req)`; requests with Via "front"
+// enter through its mux.
+type frontFn struct{ mux *nethttp.ServeMux }
+
+func (f *frontFn) Call(ctx data.Context) (data.GetValue, data.Control) {
+	v, _ := ctx.GetIndexValue(0)
+	if pv, ok := v.(*data.ClassValue); ok {
+		if s, ok := pv.Class.(interface{ GetSource() any }); ok {
+			if m, ok := s.GetSource().(*nethttp.ServeMux); ok {
+				f.mux = m
+			}
+		}
+	}
+	return nil, nil
+}
+func (f *frontFn) GetName() string { return "verif_front" }
+func (f *frontFn) GetParams() []data.GetValue {
+	return []data.GetValue{data.NewParameter("s", 0)}
+}
+func (f *frontFn) GetVariables() []data.Variable {
+	return []data.Variable{data.NewVariable("s", 0, nil)}
 }
 
 func newServer(script string) (*server, error) {
@@ -217,6 +276,9 @@ func newServer(script string) (*server, error) {
 	env.VM.AddFunc(g)
 	env.VM.AddFunc(strFn{})
 	env.VM.AddFunc(hot)
+	env.VM.AddFunc(attrFn{})
+	front := &frontFn{}
+	env.VM.AddFunc(front)
 	o = env.RunSource(script, "/verif-c11.php")
 	if o.Kind != "ok" {
 		return nil, fmt.Errorf("server script: %s", o.String())
@@ -224,7 +286,7 @@ func newServer(script string) (*server, error) {
 	if env.Mux == nil {
 		return nil, fmt.Errorf("server script did not expose a mux")
 	}
-	return &server{env: env, gate: g, hot: hot}, nil
+	return &server{env: env, gate: g, hot: hot, front: front}, nil
 }
 
 // wire is what one request looks like on the wire.
@@ -234,6 +296,9 @@ type wire struct {
 	Body    string      `json:"body,omitempty"`
 	Headers [][2]string `json:"headers,omitempty"`
 	Cookies [][2]string `json:"cookies,omitempty"`
+	// Via: "" = the server's mux (or a verif_hot route of that path), "front" = the mux of the
+	// forwarding server (verif_front)
+	Via string `json:"via,omitempty"`
 }
 
 func (w wire) build() *nethttp.Request {
@@ -290,7 +355,9 @@ func (s *server) serve(w wire) (r resp) {
 			}
 		}
 	}()
-	if h := s.hot.lookup(w.URL); h != nil {
+	if w.Via == "front" && s.front.mux != nil {
+		s.front.mux.ServeHTTP(rw, w.build())
+	} else if h := s.hot.lookup(w.URL); h != nil {
 		h.ServeHTTP(rw, w.build())
 	} else {
 		s.env.Mux.ServeHTTP(rw, w.build())
